@@ -14,11 +14,11 @@ variable {F : Type} [Num F]
 /-- an unimplemented function raises `NotImplementedError`, whatever its arguments … -/
 theorem unknown_function (env : Env F) (f : String) (args : List (Expr F)) (vs : List (Res F))
     (ha : evalArgs env args = .ok vs)
-    (hf : f ∉ ["SUM", "MAX", "MIN", "COUNT", "IF", "IFERROR", "ISERROR", "ABS", "AND", "OR", "NOT"]) :
+    (hf : f ∉ ["SUM", "MAX", "MIN", "COUNT", "IF", "IFERROR", "IFNA", "IFS", "ISERROR", "ABS", "AND", "OR", "NOT"]) :
     evalExpr env (.call f args) = .error .notImplemented := by
   simp only [List.mem_cons, List.not_mem_nil, or_false, not_or] at hf
-  obtain ⟨h1, h2, h3, h4, h5, h6, h7, h8, h9, h10, h11⟩ := hf
-  simp [evalExpr, ha, h1, h2, h3, h4, h5, h6, h7, h8, h9, h10, h11]
+  obtain ⟨h1, h2, h3, h4, h5, h6, h7, h8, h9, h10, h11, h12, h13⟩ := hf
+  simp [evalExpr, ha, h1, h2, h3, h4, h5, h6, h7, h8, h9, h10, h11, h12, h13]
 
 /-- … and a formula in which that happens evaluates to `#NAME?` in every cell it fills -/
 theorem unknown_function_cell (env : Env F) (R C i j : Nat) (e : Expr F) (h : evalExpr env e = .error .notImplemented) :
